@@ -1677,4 +1677,19 @@ theorem T_C03_decoded_source_start_end_total : decodeBody CBV.Gen.c03Body_start_
 theorem T_C03_decoded_source_total_count_c2c : decodeBody CBV.Gen.c03Body_total_expansion__count__c2c_expansion = some body_total_count_c2c := body_total_count_c2c_decoded
 theorem T_C03_decoded_source_total_start_end : decodeBody CBV.Gen.c03Body_total_expansion__start_size__end_size = some body_total_start_end := body_total_start_end_decoded
 
+/-- the same for the statements of `Chop.invert` (`IStmt`): decoder, round trip, and the generated tokens decode to
+    `invertBody`; the bodies of the four simple validators decode to the model's `validatorBodies` -/
+theorem T_C03_decode_encode_invert (l : List IStmt) (hw : ∀ s ∈ l, s.wf) : decodeIBody (encIBody l) = some l :=
+  decodeIBody_encIBody l hw
+
+example : (∀ s ∈ invertBody, s.wf) ∧ decodeIBody (encIBody invertBody) = some invertBody := by
+  have hw : ∀ s ∈ invertBody, s.wf := by simp [invertBody, IStmt.wf]
+  exact ⟨hw, T_C03_decode_encode_invert _ hw⟩
+
+theorem T_C03_decoded_source_invert_validators :
+    decodeIBody CBV.Gen.c03InvertBody = some invertBody ∧
+    CBV.Gen.c03ValidatorBodies.map (fun p => (p.1, p.2.1, decodeBody p.2.2)) =
+      validatorBodies.map (fun p => (p.1, p.2.1, some p.2.2)) :=
+  ⟨invertBody_decoded, validatorBodies_decoded⟩
+
 end CBV.C03
